@@ -568,7 +568,7 @@ fn corpus(jobs: &mut Vec<Job>) {
     let t = table(vec![("id", ColType::Id, ints(&[0, 1, 2])), ("c1", ColType::Int("u8off"), ints(&[1000000000000, 1000000000007, 1000000000005]))]);
     jobs.push(Job { prefix: "corpus:executor-pinned-buffer/".into(), t, reals: vec![one(3), fixed_real(vec![0, 3], vec![true], false, 999, Mode::Mem), fixed_real(vec![0, 1, 3], vec![true, false], false, 999, Mode::Mem)],
         queries: vec![q_agg(Kind::Grp, vec![Item::Key(1), Item::Agg("max", 1)], "w-+i:ma")] });
-    // groupby-valrows-streamed (C02/C04, open, what is left of it): two keys through value rows (one beyond -2^62), partition of 20 rows
+    // groupby-valrows-streamed, value-row part (repaired 3044fa3): two keys through value rows (one beyond -2^62), partition of 20 rows
     // longer than batch_size 8: integer keys unpacked from the value rows are NULL after the first chunk (ValToNullableInt, block output)
     let base: i64 = -9223372034272233317;
     let t = table(vec![("id", ColType::Id, ints(&(0..20).collect::<Vec<i64>>())),
